@@ -311,19 +311,12 @@ def run_replay(binary, path, race=False, verbose=False, timeout=900):
     env = dict(ENV)
     if race:
         env["GORACE"] = "halt_on_error=1 exitcode=66"
-        env["GODEBUG"] = RACE_GODEBUG
     argv = [binary, "-test.run", "TestSim", "-test.timeout", "0", "-sim.replay", path]
     if verbose:
         argv.append("-sim.v")
     r = sh(argv, env=env, timeout=timeout)
     return r.returncode, r.stdout
 
-
-# go1.26.8's race runtime dies now and then (SIGSEGV in __tsan::SlotLock, or "ThreadSanitizer: CHECK failed ...
-# slot_locked") when a preemption signal arrives while a select runs a due ticker of a synctest bubble; without
-# asynchronous preemption the same executions pass. Every goroutine of a simulated run reaches a hook or blocks
-# after a few instructions, so nothing here depends on it.
-RACE_GODEBUG = "asyncpreemptoff=1"
 
 GMPS = [16, 1, 2, 4, 8, 16, 3, 40, 6, 16, 12, 64, 5, 16, 33, 16]  # GOMAXPROCS per process (values above the core count are legal)
 
@@ -409,7 +402,6 @@ def _check(prop, tier, seed, tmp, t0):
         env["GOMAXPROCS"] = str(GMPS[i])
         if race:
             env["GORACE"] = "halt_on_error=1 exitcode=66 log_path=%s" % os.path.join(tmp, "race_%d" % i)
-            env["GODEBUG"] = RACE_GODEBUG
         argv = [binaries[eng], "-test.run", "TestSim", "-test.timeout", "0", "-sim.prop", pop, "-sim.tier", tier, "-sim.seed", str(seed),
                 "-sim.proc", str(i), "-sim.secs", str(secs), "-sim.out", os.path.join(tmp, "out_%d.json" % i),
                 "-sim.replaydir", replaydir, "-sim.beginlog", os.path.join(tmp, "begin_%d" % i)]
@@ -838,8 +830,7 @@ def selftest():
                     env["GOMAXPROCS"] = str(g)
                     if race:
                         env["GORACE"] = "halt_on_error=1 exitcode=66"
-                        env["GODEBUG"] = RACE_GODEBUG
-                    if i >= 3:
+                                if i >= 3:
                         env["GOGC"] = "1"  # collect all the time: nothing may hinge on addresses or on when memory is reused
                     jobs.append(([binary, "-test.run", "TestSim", "-test.timeout", "0", "-sim.selftest", str(n), "-sim.seed", "77",
                                   "-sim.hashlog", os.path.join(tmp, "h_%s_%d_%d" % (eng, race, i))], env, os.path.join(tmp, "st_%s_%d_%d" % (eng, race, i))))
